@@ -381,7 +381,7 @@ C11_RkMapping(o) ==
         /\ \A i \in 1..Len(o.evs) : (o.evs[i].ev = "Store" /\ o.evs[i].d.call = "save") => o.evs[i].d.opts.rk = ExpRk(o)
         /\ (EndOk(o) => ~(o.cfg.disc = "nondisc" /\ ExpRk(o)))
         \* after consent the only reason for "unsupported option" is a resident key the store cannot provide
-        /\ ((Ends(o) # <<>> /\ ConsentGiven(o) /\ ErrIs(o, 43)) => ExpRk(o) /\ o.cfg.disc = "nondisc")
+        /\ ((Ends(o) # <<>> /\ ConsentGiven(o) /\ ErrIs(o, 43) /\ NoFaults(o)) => ExpRk(o) /\ o.cfg.disc = "nondisc")
 
 C11_CredProps(o) ==
     (IsClient(o) /\ IsMc(o) /\ EndOk(o)) =>
